@@ -11,9 +11,9 @@ TailsR == {"r1", "r1_prop", "r1_block_pv2", "r1_commit_noblock", "r1v", "r1v_rep
            "r2", "r2_pv2"}
 TailsD == {"decided_strag", "decided_eq", "eq_nil"}
 \* quick: a cross-section of every family
-QuickNode == {E(0, t) : t \in {"prop_part0", "block_polka_pc2", "block_pc_mixed", "polka_noprop", "commit_part0", "r1_block_pv2", "r1v_reprop_block", "decided_eq", "ahead_pv1"}}
-             \cup {E(1, t) : t \in {"newheight"}} \cup {E(2, t) : t \in {"propose", "decided_strag"}}
-QuickPeer == {E(0, t) : t \in {"newheight", "propose", "block_pv2", "nilpolka", "commit_noblock", "r1_prop", "r1_reprop_nopol", "r2", "eq_nil", "block_pv2_wait"}}
+QuickNode == {E(0, t) : t \in {"r1v", "prop_part0", "block_polka_pc2", "block_pc_mixed", "polka_noprop", "commit_part0", "r1v_reprop_block", "decided_eq", "ahead_pv1"}}
+             \cup {E(1, t) : t \in {"newheight"}} \cup {E(2, t) : t \in {"propose"}}
+QuickPeer == {E(0, t) : t \in {"propose", "block_pv2", "nilpolka", "commit_noblock", "r1_prop", "r1_reprop_nopol", "eq_nil", "block_pv2_wait"}}
              \cup {E(1, t) : t \in {"prop_part0"}}
 FullNode == {E(0, t) : t \in Tails0 \cup TailsR \cup TailsD} \cup {E(1, t) : t \in Tails0 \cup {"r1_block_pv2", "decided_strag", "decided_eq"}}
             \cup {E(2, t) : t \in {"newheight", "propose", "block_pv2", "commit_part0", "decided_strag"}}
@@ -29,8 +29,10 @@ NoG6 == AllGaps \ {"G6_POLShadowedByCatchupRound"}
 LiveNode == {E(0, t) : t \in {"block_polka_pc2", "r1v_reprop_block", "decided_eq"}} \cup {E(2, "propose")}
 LivePeer == {E(0, t) : t \in {"propose", "block_pv2_wait", "commit_noblock", "eq_nil"}}
 \* non-vacuity menus: small, every Weak_* switch and every gap is exhibited
-NVNode == {E(0, t) : t \in {"commit_part0", "block_pc_mixed", "prop_part0", "polka_noprop", "r1v_reprop_block", "decided_eq", "ahead_pv1"}} \cup {E(2, "propose")}
+NVNode == {E(0, t) : t \in {"r1v", "commit_part0", "block_pc_mixed", "prop_part0", "polka_noprop", "r1v_reprop_block", "decided_eq", "ahead_pv1"}} \cup {E(2, "propose")}
 NVPeer == {E(0, t) : t \in {"propose", "commit_noblock", "block_pv2_wait", "r1_prop", "r1_reprop_nopol", "eq_nil"}}
+G3Node == {E(0, "r1v")}
+G3Peer == {E(0, "r1_reprop_nopol")}
 LiveNodeQ == {E(0, "decided_eq")}
 LivePeerQ == {E(0, t) : t \in {"propose", "eq_nil"}}
 ====
